@@ -3,41 +3,70 @@
 From KC Require Import Base Cache Watcher WatcherProps.
 
 (* after every sequence of server changes, deliveries, stream closes, connect
-   errors, non-object frames, reconnects and controller steps:
-   applied ++ (channel the controller reads) = the log up to the last entry
-   taken, in order; the session buffer continues it; nothing is skipped *)
-Theorem C04_watch_pipeline_invariant : forall l s, wrun winit l = Some s -> winv s.
+   errors, non-object frames, buffer overflows, reconnects, relists and
+   controller steps: what was applied and what the channel holds are in log
+   order without duplicates; and while no buffer overflowed since the last
+   list, applied ++ (channel the controller reads) = the log from the list's
+   version up to the last entry taken, the session buffer continues it, and
+   nothing is skipped *)
+Theorem C04_watch_pipeline_invariant : forall cap l s, wrun (winit cap) l = Some s -> winv s.
 Proof. exact watch_pipeline_invariant. Qed.
 Print Assumptions C04_watch_pipeline_invariant.
 
-Theorem C04_applied_is_prefix_of_log : forall l s, wrun winit l = Some s ->
-  w_applied s = wseq 0 (length (w_applied s)) /\ length (w_applied s) <= w_n s.
+Theorem C04_applied_is_prefix_of_log : forall cap l s, wrun (winit cap) l = Some s -> w_lost s = 0 ->
+  w_applied s = wseq (w_base s) (length (w_applied s)) /\ w_base s + length (w_applied s) <= w_n s.
 Proof. exact applied_is_prefix_of_log. Qed.
 Print Assumptions C04_applied_is_prefix_of_log.
 
-Theorem C04_reconnect_resumes_after_last_taken : forall l s s', wrun winit l = Some s ->
+Theorem C04_applied_in_order_without_duplicates : forall cap l s, wrun (winit cap) l = Some s ->
+  incr_within (w_base s) (w_cur s) (w_applied s ++ w_obuf s) /\ NoDup (w_applied s ++ w_obuf s).
+Proof. exact applied_in_order_without_duplicates. Qed.
+Print Assumptions C04_applied_in_order_without_duplicates.
+
+Theorem C04_reconnect_resumes_after_last_taken : forall cap l s s', wrun (winit cap) l = Some s ->
   wstep s WRetry = Some s' ->
-  w_pos s' = w_cur s /\ w_cur s = length (w_applied s ++ w_obuf s) /\ w_obuf s' = w_obuf s.
+  w_pos s' = w_cur s /\ w_obuf s' = w_obuf s /\
+  (w_lost s = 0 -> w_cur s = w_base s + length (w_applied s ++ w_obuf s)).
 Proof. exact reconnect_resumes_after_last_taken. Qed.
 Print Assumptions C04_reconnect_resumes_after_last_taken.
 
-Theorem C04_received_not_discarded : forall s a s', wstep s a = Some s' ->
+Theorem C04_received_not_discarded : forall s a s', (forall b, a <> WReset b) -> wstep s a = Some s' ->
   exists more, w_applied s' ++ w_obuf s' = (w_applied s ++ w_obuf s) ++ more.
 Proof. exact received_not_discarded. Qed.
 Print Assumptions C04_received_not_discarded.
 
+(* an event is lost only when it finds one of the two EventBufsiz buffers full *)
+Theorem C04_loss_needs_full_buffer : forall s a s', wstep s a = Some s' -> w_lost s' <> w_lost s ->
+  (exists b, a = WReset b) \/
+  (a = WDeliver /\ length (w_sbuf s) >= w_cap s) \/ (a = WTake /\ length (w_obuf s) >= w_cap s).
+Proof. exact loss_needs_full_buffer. Qed.
+Print Assumptions C04_loss_needs_full_buffer.
+
 (* when the server quiesces and the library has nothing left to do, the
    controller has applied the whole log: no relist needed *)
-Theorem C04_watch_quiescent_complete : forall l s, wrun winit l = Some s ->
-  wquiescent s = true -> w_applied s = wseq 0 (w_n s).
+Theorem C04_watch_quiescent_complete : forall cap l s, wrun (winit cap) l = Some s ->
+  wquiescent s = true -> w_lost s = 0 -> w_applied s = wseq (w_base s) (w_n s - w_base s).
 Proof. exact watch_quiescent_complete. Qed.
 Print Assumptions C04_watch_quiescent_complete.
 
-Theorem C04_watch_quiescent_cache : forall F c0 entry l s, wrun winit l = Some s ->
-  wquiescent s = true ->
-  cache_after F c0 entry (w_applied s) = cache_after F c0 entry (wseq 0 (w_n s)).
+Theorem C04_watch_quiescent_cache : forall F c0 entry cap l s, wrun (winit cap) l = Some s ->
+  wquiescent s = true -> w_lost s = 0 ->
+  cache_after F c0 entry (w_applied s) = cache_after F c0 entry (wseq (w_base s) (w_n s - w_base s)).
 Proof. exact watch_quiescent_cache. Qed.
 Print Assumptions C04_watch_quiescent_cache.
+
+(* across relists: nothing that predates the list the watcher was last reset
+   to is applied, buffered or in flight after it; and the reset wipes the
+   slate whatever overflowed before *)
+Theorem C04_nothing_stale_after_reset : forall cap l s i, wrun (winit cap) l = Some s ->
+  In i (w_applied s ++ w_obuf s ++ w_sbuf s) -> w_base s < i /\ i <= w_n s.
+Proof. exact nothing_stale_after_reset. Qed.
+Print Assumptions C04_nothing_stale_after_reset.
+
+Theorem C04_reset_heals : forall s b s', wstep s (WReset b) = Some s' ->
+  w_lost s' = 0 /\ w_base s' = b /\ w_applied s' = [] /\ w_obuf s' = [] /\ w_sbuf s' = [] /\ w_cur s' = b.
+Proof. exact reset_heals. Qed.
+Print Assumptions C04_reset_heals.
 
 Theorem C04_non_object_frames_harmless : forall s s', wstep s WFrame = Some s' -> s' = s.
 Proof. exact non_object_frames_harmless. Qed.
